@@ -565,7 +565,7 @@ impl Check for C20 {
         out
     }
     fn exhaustive_note(&self, tier: Tier) -> Option<String> {
-        Some(format!("all operation sequences of length 1..={} over the 14-operation alphabet, starting from an empty file", if tier == Tier::Thorough { 5 } else { 4 }))
+        Some(format!("all operation sequences of length 1..={} over the 15-operation alphabet, starting from an empty file", if tier == Tier::Thorough { 5 } else { 4 }))
     }
     fn execute(&self, case: &Value) -> Verdict {
         match serde_json::from_value::<Case>(case.clone()) {
@@ -592,14 +592,14 @@ impl Check for C20 {
     }
     fn rule(&self) -> String {
         format!(
-            "all operation sequences up to length 4 (thorough: 5) over a {}-operation alphabet {{add (Shell::add_to_history, and through the reedline adapter + add_to_history; 3 commands incl. blank-padded), history -s, save_history, history -a, new session, drop session without saving, exit (save then drop), switch session, history -d 1 / -1, history -c, toggle HISTTIMEFORMAT}} enumerated completely from an empty file, then seeded sequences of 5-12 operations over the full alphabet (7 commands, 3 words, more delete offsets) with up to three sessions alive and seeded initial file contents (with and without timestamp lines); after every operation the history file's lines and every session's item list must equal the executable model's, every new session must reload exactly the file's content, and a final restart must reload it; non-trivial = the sequence records something and saves; distinct = distinct (operation sequence, initial file)",
+            "all operation sequences up to length 4 (thorough: 5) over a {}-operation alphabet {{add (Shell::add_to_history, and through the reedline adapter + add_to_history; 3 commands incl. blank-padded), history -s, save_history, history -a, new session, drop session without saving, exit (save then drop), switch session, history -d 1 / -1, history -c, toggle HISTTIMEFORMAT, two sessions saving at the same time}} enumerated completely from an empty file, then seeded sequences of 5-12 operations over the full alphabet (7 commands, 3 words, more delete offsets) with up to three sessions alive and seeded initial file contents (with and without timestamp lines); after every operation the history file's lines and every session's item list must equal the executable model's, every new session must reload exactly the file's content, and a final restart must reload it; non-trivial = the sequence records something and saves; distinct = distinct (operation sequence, initial file)",
             all_ops().len()
         )
     }
     fn components(&self) -> Value {
         json!({
             "real": ["brush-core history.rs (History::import/add/flush/remove_nth_item/clear, dirty flags)", "shell/history.rs (load_history, save_history, add_to_history)", "brush-builtins history (-s -a -d -c)", "a real file in a private directory"],
-            "stub": ["reedline itself: the history adapter brush hands to reedline (brush-interactive/src/reedline/history.rs) is real and is driven the way reedline's engine drives it (save(item) per accepted line, sync())", "no scheduler is involved: sessions interleave at operation granularity, which is what the statement quantifies over", "torn or failed writes are not injected (the statement quantifies over histories, not faults)"]
+            "stub": ["reedline itself: the history adapter brush hands to reedline (brush-interactive/src/reedline/history.rs) is real and is driven the way reedline's engine drives it (save(item) per accepted line, sync())", "sessions interleave at operation granularity, except in RaceSave, where two sessions save as two participants under the seeded token scheduler with a scheduling point at every write call on the file (seam H13); the appended lines must parse back to an order-preserving merge of the two sessions' entries", "torn or failed writes are not injected (the statement quantifies over histories, not faults)"]
         })
     }
     fn assumptions(&self) -> Vec<String> {
